@@ -26,6 +26,37 @@ def aggs(facts, adt):
                     yield b, bi, si, st
 
 
+# chunk_dictionary.proto: enum ChunkingAlgorithm { BUZHASH = 0; ROLLSUM = 1; FIXED_SIZE = 2; }
+ENUM_VALUE = {'Buzhash': 0, 'Rollsum': 1, 'FixedSize': 2}
+
+
+def direct_calls_of(facts, T, closure):
+    """[(calling body, [argument terms])] for direct calls `f(a, b)` of a local closure"""
+    out = []
+    for pb in facts.bodies.values():
+        if pb.crate != closure.crate:
+            continue
+        for bi, t in pb.calls():
+            c = t['callee']
+            if c.get('rdef') == closure.id and c.get('q', '').startswith('core::ops::function::Fn') and len(t['args']) == 2:
+                tup = simplify(T.resolve_env(simplify(T.of_operand(pb, t['args'][1]))))
+                if tup[0] == 'tuple':
+                    out.append((pb, list(tup[1])))
+    return out
+
+
+def subst_cparams(term, body_id, args):
+    if isinstance(term, tuple):
+        if term[0] == 'cparam' and term[1] == body_id and isinstance(term[2], int) and term[2] < len(args):
+            return args[term[2]]
+        return tuple(subst_cparams(x, body_id, args) for x in term)
+    if isinstance(term, list):
+        return [subst_cparams(x, body_id, args) for x in term]
+    if isinstance(term, dict):
+        return {k: subst_cparams(v, body_id, args) for k, v in term.items()}
+    return term
+
+
 def const_value(t):
     """evaluate a constant integer term (enum discriminant casts show up as (k Add 0) as i32)"""
     if isinstance(t, tuple):
@@ -33,6 +64,8 @@ def const_value(t):
             return t[1]
         if t[0] == 'cast':
             return const_value(t[2])
+        if t[0] == 'discr' and isinstance(t[1], tuple) and t[1][0] == 'agg' and t[1][1].endswith('ChunkingAlgorithm'):
+            return ENUM_VALUE.get(t[1][2])
         if t[0] == 'binop' and t[1] == 'Add':
             a, b_ = const_value(t[2]), const_value(t[3])
             if a is not None and b_ is not None:
@@ -259,8 +292,17 @@ def run(facts, cg):
 
     # ---------------------------------------------------------------- chunker parameters per Config variant
     per_writer = {}
+    contexts = []
     for b, bi, si, st in aggs(facts, PARAMS):
-        d = {n: simplify(T.resolve_env(simplify(T.of_operand(b, o)))) for n, o in zip(st['rv']['fields'], st['rv']['ops'])}
+        d0 = {n: simplify(T.resolve_env(simplify(T.of_operand(b, o)))) for n, o in zip(st['rv']['fields'], st['rv']['ops'])}
+        sites = direct_calls_of(facts, T, b) if b.raw['kind'] == 'Closure' and any(n_[0] == 'cparam' for t_ in d0.values() for n_ in walk(t_)) else []
+        if sites:
+            # one aggregate in a local closure that is called once per configuration variant: evaluate it per call
+            for (pb, args) in sites:
+                contexts.append((pb, bi, si, st, {k: simplify(subst_cparams(v, b.id, args)) for k, v in d0.items()}))
+        else:
+            contexts.append((b, bi, si, st, d0))
+    for b, bi, si, st, d in contexts:
         var = None
         for t in d.values():
             var = var or variant_of(t)
@@ -289,7 +331,7 @@ def run(facts, cg):
         for fld, good in checks.items():
             if not good:
                 finding(b.q, 'params:%s:%s' % (var, fld), 'ChunkerParameters.%s recorded for %s is %s' % (fld, var, show(d[fld])[:100]))
-        per_writer.setdefault(b.q, {})[var] = {k: _norm(v) for k, v in d.items() if k != 'chunk_hash_length'}
+        per_writer.setdefault(b.q, {})[var or '?'] = {k: _sig(v) for k, v in d.items() if k != 'chunk_hash_length'}
         per_writer[b.q].setdefault('#hash_len', set()).add(freeze(_norm(d['chunk_hash_length'])))
         instances.append({'rule': 'R-DICT-WIRING(params)', 'function': b.q, 'variant': var, 'at': st['loc'], 'fields': {k: show(v)[:80] for k, v in d.items()}})
     for w, tab in per_writer.items():
@@ -409,7 +451,10 @@ def run(facts, cg):
         instances.append(inst)
         if not has_call(d['application_version'], 'to_string') or 'PKG_VERSION' not in show(d['application_version']):
             finding(b.q, 'dict-version', 'application_version is not the crate version constant')
-        if not any(n[0] == 'var' and 'chunker_params' in n[2] or n[0] == 'agg' and n[1] == PARAMS for n in walk(d['chunker_params'])):
+        param_builders = {b_.id for b_, _, _, _ in aggs(facts, PARAMS)}
+        if has_call(d['chunker_params'], 'Default::default') or has_call(d['chunker_params'], '::default') or \
+                not any(n[0] == 'var' or (n[0] == 'agg' and n[1] == PARAMS) or (n[0] == 'call' and n[1] in param_builders)
+                        for n in walk(d['chunker_params'])):
             finding(b.q, 'dict-params', 'chunker_params does not come from the ChunkerParameters value built above')
         if not has_field(d['chunk_compression'], 'compression'):
             finding(b.q, 'dict-compression', 'chunk_compression is not derived from the compression option (%s)' % show(d['chunk_compression'])[:80])
@@ -518,6 +563,15 @@ def _strip_cast(t):
     while isinstance(t, tuple) and t and t[0] == 'cast':
         t = t[2]
     return t
+
+
+def _sig(t):
+    """what a recorded parameter is made of, independent of how the expression is written: the configuration fields it
+    reads, the variant it is taken from, the (non-transparent) functions applied, and its value if it is a constant"""
+    cv = const_value(t)
+    fields = sorted({str(n[2]) for n in walk(t) if n[0] == 'field' and isinstance(n[2], str)})
+    calls = sorted({n[1].split('::')[-1] for n in walk(t) if n[0] == 'call'})
+    return (cv, tuple(fields), tuple(calls), variant_of(t))
 
 
 def _norm(t):
